@@ -80,15 +80,15 @@ Inductive codec := Ready | NotReady | IoErr.
 Inductive p2res :=
 | ROk
 | RGoAway (reason : N) (debug : list N) (i : initiator)      (* Err(Error::GoAway) *)
-| RResetRemote                                                (* Err(Error::Reset(_, _, Remote)) *)
-| RResetLibrary (ga : option (N * list N))                    (* Err(Error::Reset(.., Library)); streams.send_reset failed with GoAway? *)
+| RReset (i : initiator) (ga : option (N * list N))           (* Err(Error::Reset(_, _, i)); if streams.send_reset is reached: did it
+                                                                 fail with GoAway { reason, debug_data }? *)
 | RIo (empty_eof : bool) (is_server : bool).                  (* Err(Error::Io): is_buffer_empty && kind == UnexpectedEof; is_server *)
 
 Inductive wframe :=
 | WSettingsAck | WSettings (p : sparams) | WPing (ack : bool) (payload : N) | WGoAway (last reason : N) (debug : list N).
 
 Inductive waker := WPingTask | WPongTask.
-Inductive apires := AOk | ANone | APending | APong | AErrSettingsPending | AErrPingPending | AErrBrokenPipe.
+Inductive apires := AOk | ANone | APingOk | APending | APong | AErrSettingsPending | AErrPingPending | AErrBrokenPipe.
 Inductive connres := CROk | CRGoAway (debug : list N) (reason : N) (i : initiator) | CRIo.
 
 Inductive out :=
@@ -105,6 +105,7 @@ Inductive out :=
 | OSendReset                                   (* streams.send_reset(id, reason) Ok *)
 | ORecvEof                                     (* streams.recv_eof *)
 | OWake (w : waker) | OReg (w : waker)
+| OUserAck                                     (* the user-ping cell went PENDING_PONG -> RECEIVED_PONG *)
 | OApi (r : apires)
 | OConnResult (r : connres).                   (* what Connection::poll returns *)
 
@@ -120,7 +121,8 @@ Inductive outcome := SOk (s : st) (o : list out) (f : flow) | SStuck (n : N) | S
 
 Inductive inframe :=
 | InSettings (p : sparams)                     (* SETTINGS without ACK *)
-| InSettingsAck (apply_err : option p2res)     (* SETTINGS ACK; what streams.apply_local_settings returns if it is reached *)
+| InSettingsAck (apply_err : option N)         (* SETTINGS ACK; if streams.apply_local_settings is reached: Ok, or the reason of the
+                                                  Error::library_go_away it returned (its only kind of error) *)
 | InPing (ack : bool) (payload : N)
 | InGoAway (last reason : N) (debug : list N)
 | InHeaders (id : N) (raised : bool)           (* streams.recv_headers; raised: last_processed_id was raised to id *)
@@ -143,7 +145,8 @@ Inductive label :=
 | LPollGoAway (c : codec)
 | LPollPong (c : codec)
 | LPollPing (c : codec)
-| LSettingsAck (c : codec) (apply_err : option p2res)    (* first half of Settings::poll_send *)
+| LSettingsAck (c : codec) (apply_err : option N)        (* first half of Settings::poll_send; apply_err: what
+                                                            streams.apply_remote_settings returned (None = Ok, Some reason = library_go_away) *)
 | LSettingsLocal (c : codec)                             (* second half of Settings::poll_send *)
 | LRecv (f : inframe)                          (* poll_next returned a frame (or None); recv_frame *)
 | LResult (r : p2res).                         (* handle_poll2_result on an error raised by unmodelled code *)
@@ -198,9 +201,10 @@ Definition handle_result (s : st) (o : list out) (r : p2res) : outcome :=
   match r with
   | ROk => SOk (set_conn s (CClosing NO_ERROR ILibrary) (c_error s)) o FLoop
   | RGoAway reason debug i => handle_go_away s o reason debug i
-  | RResetRemote => SOk s o FLoop
-  | RResetLibrary None => SOk s (o ++ [OSendReset]) FLoop
-  | RResetLibrary (Some (reason, debug)) => handle_go_away s o reason debug ILibrary
+  | RReset IRemote _ => SOk s o FLoop
+  | RReset IUser _ => SPanic 9                 (* debug_assert_eq!(initiator, Initiator::Library) *)
+  | RReset ILibrary None => SOk s (o ++ [OSendReset]) FLoop
+  | RReset ILibrary (Some (reason, debug)) => handle_go_away s o reason debug ILibrary
   | RIo empty_eof is_server =>
     if empty_eof && (is_server || error_is_no_error s)
     then SOk (set_conn s (CClosed NO_ERROR ILibrary) (c_error s)) (o ++ [OStreamsError]) FLoop
@@ -235,7 +239,7 @@ Definition after_go_away (s : st) (o : list out) (reason : N) : outcome :=
 
 Definition user_receive_pong (u : option ucell) (payload : N) : option ucell * list out :=
   match u with
-  | Some UPendingPong => if payload =? PING_USER then (Some UReceivedPong, [OWake WPongTask]) else (u, [])
+  | Some UPendingPong => if payload =? PING_USER then (Some UReceivedPong, [OUserAck; OWake WPongTask]) else (u, [])
   | _ => (u, [])
   end.
 
@@ -251,7 +255,7 @@ Definition recv_frame (s : st) (f : inframe) : outcome :=
     | LWaitingAck p =>
       match apply_err with
       | None => SOk (set_settings s LSynced (s_remote s) (s_initial s)) [OApplyLocal p] FNext
-      | Some r => handle_result s [OApplyLocalFailed] r
+      | Some r => handle_result s [OApplyLocalFailed] (RGoAway r [] ILibrary)
       end
     | LToSend _ | LSynced => handle_result s [] (RGoAway PROTOCOL_ERROR [] ILibrary)
     end
@@ -322,7 +326,7 @@ Definition cstep (s : st) (l : label) : outcome :=
   | LUserSendPing =>
     match p_user s with
     | None => SStuck 20
-    | Some UEmpty => SOk (set_ping s (p_ping s) (p_pong s) (Some UPendingPing)) [OWake WPingTask; OApi AOk] FNext
+    | Some UEmpty => SOk (set_ping s (p_ping s) (p_pong s) (Some UPendingPing)) [OWake WPingTask; OApi APingOk] FNext
     | Some UClosed => SOk s [OApi AErrBrokenPipe] FNext
     | Some _ => SOk s [OApi AErrPingPending] FNext
     end
@@ -425,7 +429,8 @@ Definition cstep (s : st) (l : label) : outcome :=
              let is_initial := negb (s_initial s) in
              match apply_err with
              | None => SOk (set_settings s (s_local s) None true) [OFrame WSettingsAck; OApplyRemote p is_initial] FNext
-             | Some r => handle_result (set_settings s (s_local s) (s_remote s) true) [OFrame WSettingsAck; OApplyRemoteFailed] r
+             | Some r => handle_result (set_settings s (s_local s) (s_remote s) true) [OFrame WSettingsAck; OApplyRemoteFailed]
+                                       (RGoAway r [] ILibrary)
              end
            end
          end
@@ -587,10 +592,10 @@ Definition check_pre1 (s : st) (p : pre) : bool :=
 
 Definition p2res_eqb (a b : p2res) : bool :=
   match a, b with
-  | ROk, ROk | RResetRemote, RResetRemote => true
+  | ROk, ROk => true
   | RGoAway r d i, RGoAway r' d' i' => (r =? r') && listN_eqb d d' && initiator_eqb i i'
-  | RResetLibrary None, RResetLibrary None => true
-  | RResetLibrary (Some (r, d)), RResetLibrary (Some (r', d')) => (r =? r') && listN_eqb d d'
+  | RReset i None, RReset i' None => initiator_eqb i i'
+  | RReset i (Some (r, d)), RReset i' (Some (r', d')) => initiator_eqb i i' && (r =? r') && listN_eqb d d'
   | RIo a1 a2, RIo b1 b2 => Bool.eqb a1 b1 && Bool.eqb a2 b2
   | _, _ => false
   end.
@@ -609,7 +614,7 @@ Definition waker_eqb (a b : waker) : bool :=
 
 Definition apires_eqb (a b : apires) : bool :=
   match a, b with
-  | AOk, AOk | ANone, ANone | APending, APending | APong, APong | AErrSettingsPending, AErrSettingsPending
+  | AOk, AOk | ANone, ANone | APingOk, APingOk | APending, APending | APong, APong | AErrSettingsPending, AErrSettingsPending
   | AErrPingPending, AErrPingPending | AErrBrokenPipe, AErrBrokenPipe => true
   | _, _ => false
   end.
@@ -652,7 +657,7 @@ Definition flow_eqb (a b : flow) : bool :=
 (* which outputs the hooks can observe (the others are filtered out of the model's outputs before comparing) *)
 Definition observable (o : out) : bool :=
   match o with
-  | OStreamsError | OSendReset | ORecvEof | OStreamsGoAway _ _ _ | OLostPong _ | OWake _ | OReg WPongTask => false
+  | OStreamsError | OSendReset | ORecvEof | OStreamsGoAway _ _ _ | OLostPong _ | OWake _ | OUserAck | OReg WPongTask => false
   | _ => true
   end.
 
